@@ -336,44 +336,8 @@ def r7_6(cx):
     from engine.woodlint.linear import PathEval, int_range
     prog = cx.prog
     audited = table('c07_casts')
-    fns = [f for f in prog.fns.values() if f.crate == 'hcobs' and not f.d.get('derived') and 'fmt::' not in f.name and f.kind != 'Closure' or
-           (f.crate == 'hcobs' and f.kind == 'Closure')]
-    for fn in sorted(fns, key=lambda f: f.name):
-        casts = []
-        for pos, st in fn.statements():
-            if st['k'] == 'assign' and st['rv']['k'] == 'cast' and st['rv']['ck'] == 'IntToInt':
-                casts.append(pos)
-        if not casts:
-            continue
-        proved = {}
-        if fn.is_acyclic():
-            pe = PathEval(fn, {}, prog=prog)
-            pe.run(lambda path, st: None)
-            cx.count_paths(pe.paths)
-            for ob in pe.obligations:
-                if ob['kind'] == 'cast':
-                    k = tuple(ob['pos'])
-                    proved[k] = proved.get(k, True) and ob['ok']
-        for i, pos in enumerate(sorted(casts)):
-            st = fn.blocks[pos.bb]['st'][pos.idx]
-            o = st['rv']['o']
-            dty = st['rv']['ty']
-            inst = 'cast#%d:%s' % (i, short(fn.name))
-            key = '%s|cast|%d' % (fn.name, i)
-            ok = proved.get((pos.bb, pos.idx))
-            if ok is None:
-                # not an integer the evaluator tracks (or a loop): widening casts are fine by type alone
-                sty = fn.locals[o['pl']['l']] if o['k'] in ('copy', 'move') and not o['pl']['p'] else (o.get('ty') or '')
-                rs, rd = int_range(sty), int_range(dty)
-                ok = bool(rs and rd and rd[0] <= rs[0] and rs[1] <= rd[1])
-            cx.count_sites()
-            if ok:
-                cx.ok(inst, fn, fn.loc(pos.bb, pos.idx), '`as %s` is lossless on every path' % dty)
-            elif key in audited:
-                cx.ok(inst + ':audited', fn, fn.loc(pos.bb, pos.idx), 'NOT DECIDED (audited): ' + audited[key])
-            else:
-                cx.fail(inst, fn, fn.loc(pos.bb, pos.idx), '`%s as %s` can drop high bits: the value is not bounded by the target type on every path '
-                        '(a length or count truncated this way makes the codec depend on how the input was split)' % (show(fn.operand_expr(o))[:80], dty))
+    fns = [f for f in prog.fns.values() if f.crate == 'hcobs' and (f.kind == 'Closure' or (not f.d.get('derived') and 'fmt::' not in f.name))]
+    lossless_casts(cx, fns, audited, 'a length or count truncated this way makes the codec depend on how the input was split')
     # the two chunk steps consume min(input.len(), remaining as usize)
     for nm in ('decode_borrow', 'decode_copy'):
         f = prog.fn('hcobs::decoder::InChunk::' + nm)
@@ -389,4 +353,10 @@ def r7_6(cx):
                  fail_detail='InChunk::%s does not consume min(input.len(), remaining as usize)' % nm)
 
 
-RULES = [('R7.1', r7_1), ('R7.2', r7_2), ('R7.3', r7_3), ('R7.4', r7_4), ('R7.5', r7_5), ('R7.6', r7_6)]
+def r7_7(cx):
+    """what the codec stands on: a consumer cannot remove the still-open chunk header (R4.1-R4.3); no read size panics the allocator under encode_read / decode_read (R17.7)"""
+    from . import c04, c17
+    compose(cx, [('R4.1', c04.r4_1), ('R4.2', c04.r4_2), ('R4.3', c04.r4_3), ('R17.7', c17.r17_7)])
+
+
+RULES = [('R7.1', r7_1), ('R7.2', r7_2), ('R7.3', r7_3), ('R7.4', r7_4), ('R7.5', r7_5), ('R7.6', r7_6), ('R7.7', r7_7)]
